@@ -94,7 +94,8 @@ def fetchHandler : Handler := fun scn => do
 /-- C03 scenarios are XR worlds (C01 model), pipelines (C04 model) or single RunFunction calls. -/
 def handler : Handler := fun scn =>
   -- the direct family (harness/main/c03_direct.go) is monitor-only: nothing to compare
-  if has scn "direct" then pure (Json.mkObj [], true, "")
+  -- (the ptdup family, harness/main/c03_ptdup.go, likewise)
+  if has scn "direct" || has scn "ptdup" then pure (Json.mkObj [], true, "")
   else if has scn "fetch" then fetchHandler scn
   else if has scn "steps" then Xp.C04.handler scn else Xp.C01.handler scn
 end Xp.C03
